@@ -479,6 +479,7 @@ type symEnv struct {
 	onInlineBind func(caller, callee *symState, param types.Object, arg ast.Expr) // facts about an argument follow it into the helper
 	inlineSkip  map[*types.Func]bool // never interpreted in place (abstracted by a resolve hook instead)
 	inlineStack []*ast.FuncDecl
+	strIDs      map[string]int64 // string constants used as switch labels
 	havocN     int
 }
 
@@ -861,6 +862,29 @@ func (e *symEnv) assign(st *symState, lhs ast.Expr, v Val) {
 		}
 		e.problem("unsupported assignment target %s", exprStr(lhs))
 		return
+	}
+	// an unknown value stored in a boolean (integer) variable is a fresh predicate (number):
+	// later tests of the variable branch consistently on it
+	if v.B == nil && v.Lin == nil {
+		if tv, ok := e.info.Types[lhs]; ok && tv.Type != nil {
+			e.havocN++
+			switch {
+			case isBoolType(tv.Type):
+				v = Val{B: fLe0(linSym(fmt.Sprintf("pred:?%s#%d", exprStr(lhs), e.havocN)).scale(-1).plus(1)), Opaque: v.Opaque}
+			case isIntegerType(tv.Type):
+				v = Val{Lin: linSym(fmt.Sprintf("val:?%s#%d", exprStr(lhs), e.havocN)), Opaque: v.Opaque}
+			}
+		} else if id, ok := ast.Unparen(lhs).(*ast.Ident); ok {
+			if o := e.info.Defs[id]; o != nil {
+				e.havocN++
+				switch {
+				case isBoolType(o.Type()):
+					v = Val{B: fLe0(linSym(fmt.Sprintf("pred:?%s#%d", id.Name, e.havocN)).scale(-1).plus(1)), Opaque: v.Opaque}
+				case isIntegerType(o.Type()):
+					v = Val{Lin: linSym(fmt.Sprintf("val:?%s#%d", id.Name, e.havocN)), Opaque: v.Opaque}
+				}
+			}
+		}
 	}
 	st.vars[key] = v
 }
@@ -1290,6 +1314,21 @@ func (e *symEnv) execCore(st *symState, s ast.Stmt) []*symState {
 				for _, ce := range cc.List {
 					if tag != nil {
 						cv := e.eval(st, ce)
+						if cv.Lin == nil {
+							// a string constant as case label: distinct constants are distinct numbers
+							if tv, ok := e.info.Types[ce]; ok && tv.Value != nil && tv.Value.Kind() == constant.String {
+								if e.strIDs == nil {
+									e.strIDs = map[string]int64{}
+								}
+								sv := constant.StringVal(tv.Value)
+								id, ok := e.strIDs[sv]
+								if !ok {
+									id = int64(1000003 + len(e.strIDs))
+									e.strIDs[sv] = id
+								}
+								cv = Val{Lin: linConst(id)}
+							}
+						}
 						if cv.Lin == nil {
 							bad = true
 							break
